@@ -3,8 +3,8 @@ C19 — Envelopes encode to the server format and evaluate consistently.
 
 Property theorems only.  `Gen.shapeNames`, `Gen.segValue/segPos` (Rat, executable) and `GenR.segValue/
 segPos` (ℝ) are GENERATED from `sc3/synth/envelope.py` (`Env._SHAPE_NAMES`, the shape chain of
-`Env._env_at`); `Env`, `Env.format`, `walk`, the constructors are the hand model of Model.lean, tied to
-the real class by the correspondence engine.  `walkR` is `walk` over ℝ with the generated formulas.
+`Env._env_at`); `Env`, `Env.format`, `walk`, the constructors are the hand model of Base.lean / Model.lean, tied to
+the real class by the correspondence engine; the straight-line constructors `GenC.*` are GENERATED too.  `walkR` is `walk` over ℝ with the generated formulas.
 -/
 import Sc3Verif.C19.Lemmas
 import Sc3Verif.C15.LemmasLift
@@ -135,46 +135,46 @@ theorem times_curves_wrapped (levels times : List ℚ) (curves : List Curve) (re
 /-! ## constructors produce their documented breakpoints -/
 
 theorem ctor_breakpoints_triangle (dur level : ℚ) :
-    Env.triangle dur level =
+    GenC.triangle dur level =
         { levels := [0, level, 0], times := [dur * (1 / 2), dur * (1 / 2)],
           curves := [.name "lin"], releaseNode := none, loopNode := none, offset := 0 } := by
-  simp [Env.triangle, Env.new, wrapExtend]
+  simp [GenC.triangle, Env.new, wrapExtend]
 
 theorem ctor_breakpoints_sine (dur level : ℚ) :
-    Env.sine dur level =
+    GenC.sine dur level =
         { levels := [0, level, 0], times := [dur * (1 / 2), dur * (1 / 2)],
           curves := [.name "sine"], releaseNode := none, loopNode := none, offset := 0 } := by
-  simp [Env.sine, Env.new, wrapExtend]
+  simp [GenC.sine, Env.new, wrapExtend]
 
 theorem ctor_breakpoints_perc (a r level : ℚ) (c : Curve) :
-    Env.perc a r level c =
+    GenC.perc a r level c =
         { levels := [0, level, 0], times := [a, r], curves := [c],
           releaseNode := none, loopNode := none, offset := 0 } := by
-  simp [Env.perc, Env.new, wrapExtend]
+  simp [GenC.perc, Env.new, wrapExtend]
 
 theorem ctor_breakpoints_linen (a s r level : ℚ) (c : Curve) :
-    Env.linen a s r level c =
+    GenC.linen a s r level c =
         { levels := [0, level, level, 0], times := [a, s, r], curves := [c],
           releaseNode := none, loopNode := none, offset := 0 } := by
-  simp [Env.linen, Env.new, wrapExtend]
+  simp [GenC.linen, Env.new, wrapExtend]
 
 theorem ctor_breakpoints_asr (a s r : ℚ) (c : Curve) :
-    Env.asr a s r c =
+    GenC.asr a s r c =
         { levels := [0, s, 0], times := [a, r], curves := [c],
           releaseNode := some 1, loopNode := none, offset := 0 } := by
-  simp [Env.asr, Env.new, wrapExtend]
+  simp [GenC.asr, Env.new, wrapExtend]
 
 theorem ctor_breakpoints_adsr (a d s r p b : ℚ) (c : Curve) :
-    Env.adsr a d s r p c b =
+    GenC.adsr a d s r p c b =
         { levels := [0 + b, p + b, p * s + b, 0 + b], times := [a, d, r], curves := [c],
           releaseNode := some 2, loopNode := none, offset := 0 } := by
-  simp [Env.adsr, Env.new, wrapExtend]
+  simp [GenC.adsr, Env.new, wrapExtend]
 
 theorem ctor_breakpoints_dadsr (dl a d s r p b : ℚ) (c : Curve) :
-    Env.dadsr dl a d s r p c b =
+    GenC.dadsr dl a d s r p c b =
         { levels := [0 + b, 0 + b, p + b, p * s + b, 0 + b], times := [dl, a, d, r],
           curves := [c], releaseNode := some 3, loopNode := none, offset := 0 } := by
-  simp [Env.dadsr, Env.new, wrapExtend]
+  simp [GenC.dadsr, Env.new, wrapExtend]
 
 /-- `cutoff`: sustains at `level` (release node 0) and falls to 0 — to −100 dB = 10⁻⁵ for the
     exponential shape, which cannot reach 0. -/
@@ -345,12 +345,12 @@ theorem at_needs_a_segment (e : Env) (t : ℚ) (h : e.times = []) (hl : e.levels
 
 example : InDomain 3 0 1 := ⟨by decide, by decide, by decide⟩
 /-- triangle of duration 2: at t = 1/2 (inside the first segment) the value is 1/2 -/
-example : (Env.triangle 2 1).at (1 / 2) = .ok (1 / 2) := by
+example : (GenC.triangle 2 1).at (1 / 2) = .ok (1 / 2) := by
   rw [ctor_breakpoints_triangle]
   simp [Env.at, Env.segs, Env.seg?, shapeNumber, curveValue, Gen.shapeNames, List.lookup, walk, Gen.segPos,
     Gen.segValue, bind, Except.bind, pure, Except.pure, List.range, List.range.loop]
   norm_num
-example : (Env.adsr (1/4) (1/2) (1/2) 1 1 (.name "lin") 0).format =
+example : (GenC.adsr (1/4) (1/2) (1/2) 1 1 (.name "lin") 0).format =
     .ok [0, 3, 2, -99, 1, 1/4, 1, 0, 1/2, 1/2, 1, 0, 0, 1, 1, 0] := by
   rw [ctor_breakpoints_adsr]
   simp [Env.format, Env.segs, Env.seg?, shapeNumber, curveValue, Gen.shapeNames, List.lookup, nodeOr99,
